@@ -167,6 +167,13 @@ ParseClauses(cp, base, baseOk, mode, k, err, got) ==
       fieldBad == i # 0 /\ (FieldMalformed(f, i, mode) \/ crBadAll \/ (ds # {} /\ \A bs \in ds : WrongAspects(bs) = {aspect}))
       truncated == Len(base) > 0 /\ Len(f) >= 1 /\ Len(f) <= 5 /\ Len(fb) = 6 /\ \A j \in 1..Len(f) : f[j] = fb[j]
       extended == Len(base) > 0 /\ Len(f) > 6 /\ Len(fb) = 6 /\ SubSeq(f, 1, 6) = fb /\ \A j \in 7..Len(f) : Len(f[j]) > 0
+      \* a record on its own (no base needed): every field is well formed, the denoted state violates the soundness
+      \* statement in exactly one aspect, and fewer than three pieces check the mover (so that no reader can object to
+      \* the placement): the error must name that aspect's field
+      lone == IF Len(f) = 6 /\ ds # {} /\ \A bs \in ds : Cardinality(WrongAspects(bs)) = 1 /\ OneKingEach(AsPos(bs))
+                    /\ Cardinality(Attackers(bs.b, KingSq(bs.b, bs.stm), 1 - bs.stm)) < 3
+              THEN UNION {WrongAspects(bs) : bs \in ds} ELSE {}
+      loneField == IF Cardinality(lone) = 1 THEN AspectError(CHOOSE a \in lone : TRUE) ELSE ""
       S_(c, x) == IF c THEN {x} ELSE {}
   IN
   S_(ok /\ ~Structural(cp), <<"C08", "accepted-text-without-six-fields-and-8x8-placement", mode>>)
@@ -174,6 +181,7 @@ ParseClauses(cp, base, baseOk, mode, k, err, got) ==
   \cup S_(ok /\ OneKingEach(got) /\ ~Valid(got), <<"C06", "parser-accepts-unsound-position", mode, Broken(got)>>)
   \cup S_(ok /\ ~OneKingEach(got), <<"C06", "parser-accepts-unsound-position", mode, {"kings"}>>)
   \cup S_(canonOk /\ fieldBad /\ (k # "err" \/ err # FieldError(i)), <<"C08", "error-does-not-name-the-bad-field", mode, i, k, err>>)
+  \cup S_(loneField # "" /\ (k # "err" \/ err # loneField), <<"C08", "unsupported-field-not-named", mode, loneField, k, err>>)
   \cup S_(canonOk /\ truncated /\ (k # "err" \/ err # "MissingField"), <<"C08", "too-few-fields-not-reported", mode, k, err>>)
   \cup S_(canonOk /\ extended /\ (k # "err" \/ err # "TooManyFields"), <<"C08", "too-many-fields-not-reported", mode, k, err>>)
 =============================================================================
